@@ -27,6 +27,14 @@ Theorem c18_mutex_no_leftovers : forall (ps : list proc) (es : list event),
 Proof. exact mutex_no_leftovers. Qed.
 Print Assumptions c18_mutex_no_leftovers.
 
+(* crash_free cannot be dropped: three servers, no files; the first acquires and crashes, the other two run into S13 *)
+Theorem c18_mutex_no_leftovers_needs_crash_free :
+  exists sched : list event,
+    holders (run true (init LAbsent MAbsent three_servers) sched) = [2; 3]
+    /\ s_took_lock (run true (init LAbsent MAbsent three_servers) sched) = true.
+Proof. exact no_leftovers_needs_crash_free. Qed.
+Print Assumptions c18_mutex_no_leftovers_needs_crash_free.
+
 (* the same with the files of a live serving authority as the leftover; also: nothing of a live pid is ever taken *)
 Theorem c18_mutex_no_dead_leftovers : forall (l : lockf) (m : metaf) (ps : list proc) (es : list event),
   init_ok l m ps ->
